@@ -16,7 +16,7 @@ FN_HDR = re.compile(r'^\s*(?:#\[[^\]]*\]\s*)*(?:pub(?:\([a-z]+\))?\s+)?(?:open\s
 # message -> (kind, code_level)  ; code_level means: an obligation the *code* must meet (not just the proof script)
 KINDS = [
     (re.compile(r'postcondition not satisfied'), 'postcondition'),
-    (re.compile(r'precondition not satisfied'), 'precondition'),
+    (re.compile(r'precondition not satisfied|fails to satisfy `callee.requires'), 'precondition'),
     (re.compile(r'possible arithmetic (underflow|overflow)'), 'arithmetic'),
     (re.compile(r'possible (division by zero|bit shift underflow/overflow)'), 'arithmetic'),
     (re.compile(r'assertion failed'), 'assertion'),
